@@ -24,11 +24,6 @@ Proof. discriminate. Qed.
    stale bytes behind), a hand-written comparison, or a derive removed from a type shows here. *)
 Local Open Scope string_scope.
 Lemma structural_traits_pinned_C13 : structural_traits_C13 =
-  ["src/error.rs: InvalidPublicKeyError derives Debug";
-   "src/error.rs: MatchProofsError derives Debug";
-   "src/error.rs: NormalizedStringError derives Debug";
-   "src/error.rs: SrpError derives Debug";
-   "src/error.rs: UnsplitCryptoError derives Debug";
-   "src/key.rs: $name derives Clone Copy Debug Eq Hash Ord PartialEq PartialOrd";
-   "src/normalized_string.rs: NormalizedString derives Clone Debug Eq Hash Ord PartialEq PartialOrd"].
+  ["src/key.rs: $name derives Clone Copy Eq Hash Ord PartialEq PartialOrd";
+   "src/normalized_string.rs: NormalizedString derives Clone Eq Hash Ord PartialEq PartialOrd"].
 Proof. reflexivity. Qed.
